@@ -284,6 +284,8 @@ class Program:
                         ci.bases.append(r)
                     elif isinstance(r, str):
                         ci.ext_bases.append(r)
+                    elif r is None and "." not in d and hasattr(__import__("builtins"), d):
+                        ci.ext_bases.append(d)  # builtin base class (str, int, Exception, …)
 
     # --------------------------------------------------------------- resolve
     def resolve(self, mod: Module, name: str, _depth: int = 0) -> ClassInfo | FunctionInfo | Module | str | None:
